@@ -14,6 +14,7 @@ import Rare.Proofs.C01Chunk
 import Rare.Proofs.C01Colour
 import Rare.Proofs.C01Readers
 import Rare.Proofs.C01Order
+import Rare.Proofs.C01FilterLine
 import Rare.Model.C01Source
 import Rare.Gen.C01
 /-!
@@ -987,6 +988,36 @@ example : ∀ (j : Nat) bs, j ≠ 1 → ([[[1, 3], [5]], [[2], [4, 6]]] : List (
   match j, hj with
   | 0, _ => simp at hbs; subst hbs; simp at hx; rcases hx with rfl | rfl | rfl <;> rfl
   | j + 2, _ => simp at hbs
+
+/-! ## `rare filter --line`: the source and number printed in front of a match (Model/C01FilterLine.lean) -/
+
+/-- `rare filter --line` prints `"<source> <number>: "` in front of every match.  For EVERY matched line of the
+    sequential reference (any inputs, any extractor configuration), source names without a space, colours off: the
+    printed line reads back as exactly (name of the line's OWN source, its own number, its key) whatever bytes the
+    key contains, and that number is the 1-based position of the line's text in its source's `splitLines` - the
+    prefix a user sees points at the line that matched.  (`hnum`: `LineNumber` is a uint64.)  The pipeline
+    theorems (`pipeline_final_classified`, `worker_line_number`) say that the matches the consumer receives carry
+    exactly these fields; the `filtern … l` op compares the printed bytes with the real command. -/
+theorem filter_line_prefix (names : Nat → Bytes) (hnames : ∀ i, ∀ c ∈ names i, c ≠ 32)
+    (e : Extractor) (datas : List Bytes) (l : Line)
+    (h : l ∈ seqMatches (clsOf e) (allLines datas)) (hnum : l.num < 2 ^ 64) :
+    readLinePrefix (filterLine true false (names l.src) l.num (keyOf e l)) = some (names l.src, l.num, keyOf e l) ∧
+    ∃ data, datas[l.src]? = some data ∧ 1 ≤ l.num ∧ (C04.splitLines data)[l.num - 1]? = some l.text := by
+  refine ⟨readLinePrefix_filterLine _ _ _ (hnames l.src) (by omega), ?_⟩
+  exact mem_allLines (List.mem_filter.mp h).1
+
+/-- The boundary of `filter_line_prefix`: a file NAME containing a space makes the prefix ambiguous - line 1 of a
+    file called `a 7: b` prints exactly like line 7 of a file called `a` whose match starts with `b 1: `. -/
+theorem filter_line_prefix_space_counterexample :
+    readLinePrefix (filterLine true false (ascii "a 7: b") 1 (ascii "k")) = some (ascii "a", 7, ascii "b 1: k") := by
+  decide +kernel
+
+/-- the hypotheses of `filter_line_prefix` are satisfiable (second line of the second file), and the coloured bytes -/
+example : (⟨1, 2, ascii "k:v"⟩ : Line) ∈ seqMatches (clsOf exampleExtractor) (allLines [ascii "a\n", ascii "x\nk:v\n"]) := by
+  decide +kernel
+
+example : filterLine true true (ascii "f") 12 (ascii "k") =
+    [27] ++ ascii "[32;1mf" ++ [27] ++ ascii "[0m " ++ [27] ++ ascii "[33;1m12" ++ [27] ++ ascii "[0m: k" := by decide +kernel
 
 /-! ## The source the models were written against (translator tie, `harness/extract/c01.go`) -/
 
